@@ -37,8 +37,9 @@ def invoke_strategy(sub):
                                    "é"]), sub, pads).map(
             lambda t: ["named", t[0], t[1], t[2]]),
     )
-    return st.lists(arg, max_size=4).map(
-        lambda a: ["INV", "echo", "full", a])
+    return st.tuples(st.lists(arg, max_size=4),
+                     st.sampled_from(["full", "full2"])).map(
+        lambda t: ["INV", "echo", t[1], t[0]])
 
 
 @st.composite
@@ -399,7 +400,9 @@ def run(run):
         "the expansion grammar with {{#invoke:echo|full|...}} calls at "
         "wrapper depth 0-2 whose arguments mix positional, named and numeric "
         "names with blanks / newlines and nested calls as values; the echo "
-        "module returns a type-tagged, length-prefixed dump of frame.args, "
+        "module returns a type-tagged, length-prefixed dump of frame.args "
+        "(read once through pairs, or - function full2 - three times through "
+        "index and pairs, which must agree), "
         "the parent title and parent args. Oracle: exact equality of the "
         "whole expansion with the reference transclusion interpreter extended "
         "by the statement's frame rules (positional from 1 verbatim, named "
